@@ -180,6 +180,13 @@ func main() {
 			walk(fd.Body, false)
 		}
 	}
+	// Fields of long-lived shared objects (types implementing Appender, Layout or Logger, and the
+	// structs embedded in them) that some function assigns: unsynchronised per-object state such as
+	// a scratch buffer or a cache kept in a layout. Statements mentioning them get a scheduling point.
+	mutableFields := sharedMutableFields(pkg)
+	for f := range mutableFields {
+		mutable[f] = true
+	}
 	var reinitFuncs []string
 	for i, f := range pkg.Syntax {
 		name := filepath.Base(pkg.CompiledGoFiles[i])
@@ -284,6 +291,89 @@ type rewriter struct {
 	inInit     bool
 }
 
+// sharedMutableFields returns the struct fields (of shared object types) that are assigned somewhere.
+func sharedMutableFields(pkg *packages.Package) map[types.Object]bool {
+	sc := pkg.Types.Scope()
+	var ifaces []*types.Interface
+	for _, n := range []string{"Appender", "Layout", "Logger"} {
+		if o := sc.Lookup(n); o != nil {
+			if it, ok := o.Type().Underlying().(*types.Interface); ok {
+				ifaces = append(ifaces, it)
+			}
+		}
+	}
+	shared := map[*types.Struct]bool{}
+	var mark func(t types.Type)
+	mark = func(t types.Type) {
+		st, ok := t.Underlying().(*types.Struct)
+		if !ok || shared[st] {
+			return
+		}
+		shared[st] = true
+		for i := 0; i < st.NumFields(); i++ {
+			if f := st.Field(i); f.Embedded() {
+				ft := f.Type()
+				if p, ok := ft.(*types.Pointer); ok {
+					ft = p.Elem()
+				}
+				mark(ft)
+			}
+		}
+	}
+	for _, n := range sc.Names() {
+		tn, ok := sc.Lookup(n).(*types.TypeName)
+		if !ok {
+			continue
+		}
+		for _, it := range ifaces {
+			if types.Implements(types.NewPointer(tn.Type()), it) || types.Implements(tn.Type(), it) {
+				mark(tn.Type())
+			}
+		}
+	}
+	fieldOf := map[types.Object]bool{}
+	for st := range shared {
+		for i := 0; i < st.NumFields(); i++ {
+			fieldOf[st.Field(i)] = true
+		}
+	}
+	out := map[types.Object]bool{}
+	var target func(e ast.Expr)
+	target = func(e ast.Expr) {
+		switch x := ast.Unparen(e).(type) {
+		case *ast.IndexExpr:
+			target(x.X)
+		case *ast.SliceExpr:
+			target(x.X)
+		case *ast.StarExpr:
+			target(x.X)
+		case *ast.SelectorExpr:
+			if sel, ok := pkg.TypesInfo.Selections[x]; ok && sel.Kind() == types.FieldVal && fieldOf[sel.Obj()] {
+				out[sel.Obj()] = true
+			}
+			target(x.X)
+		}
+	}
+	for _, f := range pkg.Syntax {
+		ast.Inspect(f, func(n ast.Node) bool {
+			switch x := n.(type) {
+			case *ast.AssignStmt:
+				for _, l := range x.Lhs {
+					target(l)
+				}
+			case *ast.IncDecStmt:
+				target(x.X)
+			case *ast.UnaryExpr:
+				if x.Op == token.AND {
+					target(x.X)
+				}
+			}
+			return true
+		})
+	}
+	return out
+}
+
 func identOf(e ast.Expr) *ast.Ident {
 	id, _ := ast.Unparen(e).(*ast.Ident)
 	return id
@@ -307,6 +397,10 @@ func (r *rewriter) mentionsMutable(exprs ...ast.Node) string {
 			case *ast.Ident:
 				if v, ok := r.info.Uses[x].(*types.Var); ok && r.mutable[v] {
 					found = v.Name()
+				}
+			case *ast.SelectorExpr:
+				if sel, ok := r.info.Selections[x]; ok && sel.Kind() == types.FieldVal && r.mutable[sel.Obj()] {
+					found = "." + sel.Obj().Name()
 				}
 			}
 			return true
